@@ -107,7 +107,7 @@ def c14_b(ctx: Ctx):
         bad = None
         n_in = 0
         for path, facts in paths:
-            fs = set(facts)
+            fs = set(common.expand_facts(ctx, fi, facts))
             if (f"{kname} in dst", False) in fs:
                 continue  # new key
             n_in += 1
